@@ -1174,6 +1174,68 @@ def run_halfprec_case(ctx, i):
       ctx.check(d2 is None, 'halfprec.opt_state:' + wrapper, lambda: dict(case=desc, diff=d2))
 
 
+def _round_hook(var, value):
+  import jax.numpy as jnp
+  return jnp.round(value * 4.0) / 4.0
+
+
+def _nonneg_hook(var, value):
+  import jax.numpy as jnp
+  return jnp.maximum(value, 0.0)
+
+
+def run_hooked_opt_case(ctx, i):
+  """Model Variables that carry value hooks (on_set_value / on_get_value as metadata or on a subclass): nnx.Optimizer.update still
+  changes parameters and optimizer state exactly as optax's update + apply_updates on the stored values - the optimizer's own
+  moment Variables copy the weight's metadata, a weight hook must not be applied to them."""
+  import jax
+  import jax.numpy as jnp
+  import optax
+  from flax import nnx
+  hook = ['round_meta', 'nonneg_meta', 'subclass_set', 'get_meta'][i % 4]
+  txk = ['momentum', 'adam', 'adamw', 'sgd'][(i // 4) % 4]
+  steps = 2 + (i // 16) % 3
+  desc = dict(hook=hook, tx=txk, steps=steps)
+  with ctx.case('hooked_opt', i, desc, nontrivial=True):
+    class Proj(nnx.Param):
+      def on_set_value(self, value):
+        return jnp.maximum(value, -0.25)
+
+    raw0 = jnp.asarray(np.random.default_rng(i).uniform(-1, 1, (4,)).astype(np.float32))
+
+    class M(nnx.Module):
+      def __init__(self):
+        if hook == 'subclass_set':
+          self.w = Proj(raw0)
+        else:
+          md = {'round_meta': dict(on_set_value=_round_hook), 'nonneg_meta': dict(on_set_value=_nonneg_hook),
+                'get_meta': dict(on_get_value=lambda var, value: value * 2.0)}[hook]
+          self.w = nnx.Param(raw0, **md)
+        self.b = nnx.Param(jnp.asarray([0.5]))
+
+    m = M()
+    tx = {'momentum': optax.sgd(0.1, momentum=0.9), 'adam': optax.adam(0.05), 'adamw': optax.adamw(0.05, weight_decay=0.1), 'sgd': optax.sgd(0.1)}[txk]
+    opt = nnx.Optimizer(m, tx)
+    p = {'b': m.b.raw_value, 'w': m.w.raw_value}
+    st = tx.init(p)
+    for k in range(steps):
+      g = {'b': jnp.asarray([0.3 * (k + 1)]), 'w': jnp.asarray(np.random.default_rng(100 * i + k).uniform(-1, 1, (4,)).astype(np.float32))}
+      grads = nnx.state(m, nnx.Param)
+      grads = jax.tree.map(lambda x: x, grads)
+      grads['w'].value, grads['b'].value = g['w'], g['b']
+      opt.update(grads)
+      ctx.op('nnx.Optimizer.update(hooked Variables)')
+      u, st = tx.update(g, st, p)
+      p = optax.apply_updates(p, u)
+      ok_p = np.array_equal(np.asarray(m.w.raw_value), np.asarray(p['w'])) and np.array_equal(np.asarray(m.b.raw_value), np.asarray(p['b']))
+      ctx.check(ok_p, 'hooked.params:nnx.Optimizer', lambda: dict(case=desc, step=k, got=np.asarray(m.w.raw_value).tolist(), want=np.asarray(p['w']).tolist()))
+      got_leaves = [np.asarray(x) for x in jax.tree_util.tree_leaves(nnx.state(opt.opt_state))]
+      want_leaves = [np.asarray(x) for x in jax.tree_util.tree_leaves(st)]
+      ok_s = len(got_leaves) == len(want_leaves) and all(a.shape == b.shape and np.array_equal(a, b) for a, b in zip(got_leaves, want_leaves))
+      ctx.check(ok_s, 'hooked.opt_state:nnx.Optimizer', lambda: dict(case=desc, step=k))
+      ctx.check(int(opt.step.value) == k + 1, 'hooked.step:nnx.Optimizer', lambda: dict(case=desc, step=k))
+
+
 BIG_TOL = dict(rtol=2e-3, atol=2e-4)
 
 
@@ -1246,6 +1308,8 @@ def run(ctx):
   quick = ctx.tier == 'quick'
   for i in ctx.indices(45 if quick else 450, 'halfprec'):
     run_halfprec_case(ctx, i)
+  for i in ctx.indices(32 if quick else 96, 'hooked_opt'):
+    run_hooked_opt_case(ctx, i)
   for i in ctx.indices(120 if quick else 240, 'bigbatch'):
     run_bigbatch_case(ctx, i)
   n_ts = 660 if quick else 4000
